@@ -164,6 +164,15 @@ def single_block_family(max_d):
                     yield json.dumps({"prog": prog, "sched": s}, separators=(",", ":"))
 
 
+def extra_obligations():
+    """`Disposables.__aexit__` regenerated from /repo's disposables.py as a MiniPy term (the gather is the external): for every list
+    of results the disposing errors are exactly the exception instances that are not the very exception handed in; none - the
+    method returns; one - that object is raised; several - one BaseExceptionGroup of exactly those, in order"""
+    from harness import core, regen
+
+    return regen.check("dispexit", core.REPO, core.LEAN)
+
+
 def corpus():
     return list(itertools.islice(single_block_family(1), 0, None))
 
